@@ -224,6 +224,26 @@ inline Mat make_data(const Case& c)
                     X(i, N - 1 - t) = (i == 1 ? (5 + t) * gap : 0) + g.gauss();
         }
     }
+    else if (kind == "jgrid")
+    {
+        // jittered 2-D grid with unit spacing (uniform neighbour distances, no ties), lifted to D correlated dimensions
+        int side = std::max(2, (int)std::ceil(std::sqrt((double)N)));
+        Mat Z(2, N);
+        for (int j = 0; j < N; ++j)
+        {
+            Z(0, j) = (j % side) + 0.05 * g.gauss();
+            Z(1, j) = (j / side) + 0.05 * g.gauss();
+        }
+        if (D >= 2)
+        {
+            X = embed_isometric(Z, D, g, c.d("offset", 0.0));
+            for (int j = 0; j < N; ++j)
+                for (int i = 0; i < D; ++i)
+                    X(i, j) += 0.02 * g.gauss();
+        }
+        else
+            X = Z.topRows(1);
+    }
     else if (kind == "multiscale")
     {
         // nested pairs at geometrically shrinking scales: dynamic range of pairwise distances = 10^decades
@@ -254,6 +274,9 @@ inline Mat make_data(const Case& c)
         fprintf(stderr, "unknown data kind %s\n", kind.c_str());
         exit(2);
     }
+    // optional overall unit change (the data measured in a much smaller / larger unit)
+    if (c.has("xscale"))
+        X *= c.d("xscale", 1.0);
     // optional sample permutation (order-dependence probes)
     long pseed = c.i("perm", 0);
     if (pseed != 0)
